@@ -165,15 +165,15 @@ theorem signOk_of_eff_int (o : NumOpts) (i : Int)
 
 /-! ### JSON equality refines Python equality on scalars -/
 
-theorem jsonEq_pyEq_scalar (v w : PyVal) (hw : enumValOk w = true) (h : jsonEq v w = true) :
+theorem jsonEq_pyEq_scalar (v w : PyVal) (hw : enumScalar w = true) (h : jsonEq v w = true) :
     PyVal.pyEq v w = true := by
-  cases v <;> cases w <;> simp [enumValOk] at hw <;> simp [jsonEq, jsNum] at h <;>
+  cases v <;> cases w <;> simp [enumScalar] at hw <;> simp [jsonEq, jsNum] at h <;>
     simp [PyVal.pyEq, PyVal.asNum, h] <;> first | exact h | (subst h; simp [Q.eq]) | skip
   all_goals first
     | exact h
     | (rename_i a b; cases a <;> cases b <;> simp_all [Q.eq, Q.ofInt])
 
-theorem jsonMem_pyMem (v : PyVal) : ∀ vs : List PyVal, vs.all enumValOk = true → jsonMem v vs = true →
+theorem jsonMem_pyMem (v : PyVal) : ∀ vs : List PyVal, vs.all enumScalar = true → jsonMem v vs = true →
     PyVal.pyMem v vs = true
   | [], _, h => by simp [jsonMem] at h
   | w :: vs, hv, h => by
@@ -307,13 +307,13 @@ theorem exact_boolean (O : Oracles) (R S) (opts : DeserOpts) (ign : Bool) (v : P
   | bool b => exact ⟨.bool b, .bool b, by simp [deser, PyVal.isNone, dValidated, vBoolean], by simp [validate, vBoolean]⟩
   | _ => simp [typeIs] at hty
 
-theorem pyMem_none_false : ∀ vs : List PyVal, vs.all enumValOk = true → PyVal.pyMem .none vs = false
+theorem pyMem_none_false : ∀ vs : List PyVal, vs.all enumScalar = true → PyVal.pyMem .none vs = false
   | [], _ => rfl
   | w :: ws, h => by
     simp only [List.all_cons, and_true_iff'] at h
     simp only [PyVal.pyMem, List.any_cons, Bool.or_eq_false_iff]
     refine ⟨?_, pyMem_none_false ws h.2⟩
-    cases w <;> simp [enumValOk] at h <;> simp [PyVal.pyEq]
+    cases w <;> simp [enumScalar] at h <;> simp [PyVal.pyEq]
 
 theorem exact_enumLit (O : Oracles) (R S) (opts : DeserOpts) (ign : Bool) (vs : List PyVal) (v : PyVal)
     (hf : exactScalar (.enumLit vs) = true) (h : jsV R S (emit true (.enumLit vs)) v = true) :
